@@ -100,6 +100,15 @@ CHECKS["C13"] = dict(
         "alone vs inside a batch is compared in dyadic arithmetic within the intersection tolerance. Calibration with corrupted sessions every run.",
    technique="TLA+ session machine + TLC MC with negative hazard configs; code->spec trace validation of recorded sessions (token memo machine)",
    ref="6 (C13)")
+CHECKS["C07"] = dict(
+   text="scale_system is an action of the Lens machine: TLC model-checks its frame condition interleaved with the edit calls, behaviours containing "
+        "it are replayed on the real Optic with exact comparison and re-validated by Trace_Lens, also for float factors in [0.01, 100]. Metamorphic "
+        "relations between two executions of the real code are judged by TLC in exact dyadic arithmetic (spec/Trace_Meta.tla): both meridional mirrors "
+        "and their product, tilt of a spherical surface about its centre of curvature, dummy surface between equal media, another wavelength of a "
+        "dispersion-free lens, and all lengths times s (ray heights, optical paths, f2, F2 and the five Seidel sums scale by s, direction cosines "
+        "unchanged) both for a lens rebuilt from the scaled recipe and for the lens produced by scale_system. Calibration with corrupted pairs.",
+   technique="TLA+ Lens machine (ScaleSystem action) + TLC MC and behaviour replay; metamorphic pair validation by TLC (dyadic arithmetic)",
+   ref="6 (C07)")
 NOT_YET = "check not built yet in this session (see DESIGN.md section 6 for the plan)"
 def main():
     props = [json.loads(l)["id"] for l in open(os.path.join(HERE, "properties.jsonl"))]
